@@ -41,10 +41,42 @@ def check(chk, repo, tier):
     get_input = it.module("vyxal.helpers").get("get_input")
     pop = it.module("vyxal.helpers").get("pop")
 
-    def fresh(scopes, flag):
+    # what each scope-creating template pushes besides the input scope: a
+    # state of the model is only reachable with the other bookkeeping lists
+    # at the matching depths (lambdas register themselves on function_stack,
+    # named functions do not, ...)
+    LISTS = ("context_values", "inputs", "stacks", "function_stack")
+    scope_vectors = {}
+    for label, struct in (
+            ("Lambda", gen0.struct("Lambda", 2, Hole("body"))),
+            ("FunctionDef", gen0.struct("FunctionDef", "f", ["2", "x"],
+                                        Hole("body")))):
+        try:
+            tree0 = ast.parse(gen0.transpile_ast([struct], 0))
+        except Exception as exc:  # noqa: BLE001
+            raise AnalysisError(f"{label} template: {exc}") from None
+        vec = tuple(sum(1 for n in ast.walk(tree0) if isinstance(n, ast.Call)
+                        and norm(ast.unparse(n.func)) == f"ctx.{lst}.append")
+                    for lst in LISTS)
+        scope_vectors[label] = vec
+    kinds = sorted(scope_vectors)
+
+    class Tracked(dict):
+        reads: set = set()
+
+        def __getitem__(self, k):
+            Tracked.reads.add(k)
+            return dict.__getitem__(self, k)
+
+    def fresh(scopes, flag, scope_kinds=()):
         ctx = it.instantiate(Context, [], {})
+        for kind in scope_kinds:
+            for lst, n_push in zip(LISTS, scope_vectors[kind]):
+                if lst != "inputs":
+                    ctx.d[lst] = list(ctx.d[lst]) + [f"<{kind}>"] * n_push
         ctx.d["inputs"] = [[list(lst), cur] for lst, cur in scopes]
         ctx.d["use_top_input"] = flag
+        ctx.d = Tracked(ctx.d)
         return ctx
 
     n_states = 0
@@ -61,31 +93,35 @@ def check(chk, repo, tier):
                 for flag in (False, True):
                     scopes = [([f"in{d}_{i}" for i in range(ln)], c)
                               for d, (ln, c) in enumerate(zip(lens, curs))]
-                    ctx = fresh(scopes, flag)
-                    n_states += 1
-                    it.steps = 0
-                    try:
-                        got = get_input(ctx)
-                    except (PRaise, Exception) as exc:  # noqa: BLE001
-                        bad.setdefault("raises", (scopes, flag, repr(exc)))
-                        continue
-                    t = 0 if flag else depth - 1
-                    lst, cur = scopes[t]
-                    after = [tuple(x) if False else (list(x[0]), x[1])
-                             for x in ctx.d["inputs"]]
-                    want_after = [(list(l), c) for l, c in scopes]
-                    if lst:
-                        want = lst[cur % len(lst)]
-                        want_after[t] = (list(lst), cur + 1)
-                    else:
-                        want = 0
-                    if got != want:
-                        bad.setdefault("value", (scopes, flag, got, want))
-                    elif after != want_after:
-                        bad.setdefault("cursor", (scopes, flag, after,
-                                                  want_after))
-                    elif ctx.d["use_top_input"] != flag:
-                        bad.setdefault("flag", (scopes, flag))
+                    for sk in _it.combinations_with_replacement(
+                            kinds, depth - 1):
+                        ctx = fresh(scopes, flag, sk)
+                        n_states += 1
+                        it.steps = 0
+                        try:
+                            got = get_input(ctx)
+                        except (PRaise, Exception) as exc:  # noqa: BLE001
+                            bad.setdefault("raises", (scopes, flag, repr(exc)))
+                            continue
+                        t = 0 if flag else depth - 1
+                        lst, cur = scopes[t]
+                        after = [tuple(x) if False else (list(x[0]), x[1])
+                                 for x in ctx.d["inputs"]]
+                        want_after = [(list(l), c) for l, c in scopes]
+                        if lst:
+                            want = lst[cur % len(lst)]
+                            want_after[t] = (list(lst), cur + 1)
+                        else:
+                            want = 0
+                        if got != want:
+                            bad.setdefault("value", (scopes, flag, got, want,
+                                                     "enclosing scopes: "
+                                                     + ",".join(sk)))
+                        elif after != want_after:
+                            bad.setdefault("cursor", (scopes, flag, after,
+                                                      want_after))
+                        elif ctx.d["use_top_input"] != flag:
+                            bad.setdefault("flag", (scopes, flag))
     texts = {
         "raises": "get_input raises",
         "value": "a read returns the wrong value (expected input number "
@@ -104,6 +140,17 @@ def check(chk, repo, tier):
                sample={"abstract states": n_states} if key == "value"
                else None)
     chk.unit("get_input abstract states", n_states)
+    MODELLED = set(LISTS) | {"use_top_input"}
+    MODE = {"repl_mode", "empty_input_is_zero", "online", "online_output"}
+    stray = sorted(Tracked.reads - MODELLED - MODE)
+    if stray:
+        raise AnalysisError(
+            "get_input consults ctx." + ", ctx.".join(stray) + ", which the "
+            "transition model does not cover (its reachable values per "
+            "state are unknown)")
+    chk.info("C11.read-transition-value", "helpers.get_input",
+             "ctx attributes consulted: " + ", ".join(sorted(Tracked.reads))
+             + "; scope templates push " + str(scope_vectors))
 
     # ---- pop on a short stack reads the missing items, in order ----------------------
     n_p = 0
